@@ -11,7 +11,13 @@ type Fh struct {
 	Ino common.Inum
 }
 
+// MakeFh decodes a file handle. A handle that does not have the length of
+// the handles this server issues decodes to inode number 0, which is never
+// valid.
 func MakeFh(fh3 nfstypes.Nfs_fh3) Fh {
+	if len(fh3.Data) != 16 {
+		return Fh{Ino: common.NULLINUM}
+	}
 	dec := marshal.NewDec(fh3.Data)
 	i := dec.GetInt()
 	return Fh{Ino: common.Inum(i)}
